@@ -33,6 +33,32 @@ PROPS = {
         "trusted_base": SRV_TB,
         "assumptions": ["single client connection per history (C07/C18 cover several)", "uptime below 2^40 s (ttl_limit_ms)"],
     },
+    "C17": {
+        "n": {"quick": 60, "thorough": 1500}, "diff_is_failure": True, "trivial_outs": {"i1", ""},
+        "rule": "server started with requirepass; (a) every command name found in server.rs (read from /repo at run time) sent with 0-3 arguments and varied letter case on a fresh unauthenticated connection, followed by GET and PING on the same connection and a dataset check from an authenticated control connection; (b) random sequences on two connections of wrong passwords (all prefixes, extensions, case flips, binary), correct AUTH, arity/format errors, data commands, MULTI blocks; one evaluation = one reply compared with the model; distinct = distinct (command, reply) pairs",
+        "explanation": "theorems: gate non-interference, exact password, per-connection, generated-table obligations; tie: differential TCP runs",
+        "trusted_base": SRV_TB + ["tools/gen_tables.py: extraction of the gate arms, of names tested before the gate and of the pre-gate special cases from server.rs"],
+        "assumptions": ["commands that the model does not implement (INFO, CONFIG, CLIENT, ...) are only sent before authentication, where the gate answers uniformly"],
+    },
+    "C18": {
+        "n": {"quick": 120, "thorough": 2500}, "diff_is_failure": True, "trivial_outs": {"i1", ""},
+        "rule": "1-3 connections selecting among valid and invalid database indices and running the string/key catalogue directly and inside MULTI/EXEC, FLUSHDB/FLUSHALL, followed by a dump (KEYS *, GET, PTTL of the key pool) of databases 0,1,2,7,15 from a fresh connection; one evaluation = one reply compared with the model",
+        "explanation": "theorems: frame property of direct and queued execution, SELECT; tie: differential multi-connection histories",
+        "trusted_base": SRV_TB, "assumptions": ["script and blocking-pop paths are covered under C12/C13"],
+    },
+    "C07": {
+        "n": {"quick": 150, "thorough": 3000}, "diff_is_failure": True, "trivial_outs": {"i1", ""},
+        "rule": "2-4 connections interleaving MULTI / queued string-family commands (valid, failing at run time, unknown) / EXEC / DISCARD / WATCH / UNWATCH / SELECT / QUIT / disconnects in a deterministic total order, followed by a dump from a fresh connection; one evaluation = one reply (EXEC arrays element-wise) compared with the model",
+        "explanation": "theorems: queue inert, EXEC in order with one slot each, same as direct, state cleared; tie: differential interleaved histories",
+        "trusted_base": SRV_TB, "assumptions": ["single command thread in the implementation (replication client thread absent: master role only)"],
+    },
+    "C08": {
+        "n": {"quick": 80, "thorough": 2000}, "diff_is_failure": True, "trivial_outs": {"i1", ""},
+        "rule": "catalogue: 38 commands (every write of the string/key family plus reads and failing variants) x 4 initial states of the watched key x {other connection on the watched key, same connection, other connection on other keys only} -> WATCH, command, MULTI, SET probe, EXEC, observe nil vs array and the probe; plus random 3-connection histories with WATCH/UNWATCH/MULTI/EXEC/DISCARD/SELECT and writers; one evaluation = one reply compared with the model",
+        "explanation": "theorems: tracker soundness/completeness, EXEC abort rule, table obligations over the engine census; tie: exhaustive catalogue + random histories",
+        "trusted_base": SRV_TB + ["tools/gen_tables.py: per-function census of mark_modified call sites in engine.rs"],
+        "assumptions": ["list/set/hash/zset/stream writers are added to the catalogue as their families are merged"],
+    },
     "C20": {
         "n": {"quick": 400, "thorough": 6000},
         "judge": True,
@@ -42,4 +68,31 @@ PROPS = {
         "trusted_base": ["oracle: Rust std f64 <-> decimal text (the harness passes parse::<f64>/to_string results to the model as a table)"],
         "assumptions": ["RespParser is driven as the server drives it: feed, then parse until None or Err"],
     },
+    "C14": {
+        "n": {"quick": 600, "thorough": 8000},
+        "judge": True,
+        "trivial_outs": {"", "i0"},
+        "rule": "cases = fixed witnesses (F-14a, F-05d, F-14b, the unit tests of pubsub.rs) + random multi-connection histories (2-5 connections; SUB/PSUB/UNSUB/PUNSUB named, all and empty; UNSUBALL; PUB; observers) over colliding pools of 10 channels and 20 patterns, each ending with a dump of every connection, every channel count and one publish per channel + the matcher on ALL (pattern, text) pairs over the alphabet {a b * ? \\} up to length 4x4 (quick) / 5x5 (thorough) + random longer pairs with texts derived from the pattern; one evaluation = one PubSubManager call (or one pattern against all texts) compared between ferrous::pubsub and the extracted Gallina model; receiver lists sorted by connection, the reported pattern of a connection with several matching patterns is an oracle checked for admissibility",
+        "explanation": "theorems: maps-consistency invariant over all histories, matcher = declarative glob (unbounded), publish delivers to exactly the connections with a matching subscription, once per connection (so the per-subscription claim is refuted: c14_delivery_refuted; partial theorem for at most one matching subscription), acknowledgement counts, nothing after unsubscribe / unsubscribe_all; tie: in-process differential run of PubSubManager + pattern_matches against the extracted model; property oracle (Redis glob semantics, per-subscription deliveries, acknowledgement counts) on the implementation's outputs",
+        "trusted_base": ["the server-level delivery of message frames (server.rs handle_publish / handle_subscribe) is not part of this check (lead's server model)"],
+        "assumptions": ["PubSubManager is driven sequentially, as the single command thread of the server does"],
+    },
+    "C19": {
+        "n": {"quick": 500, "thorough": 6000},
+        "judge": True,
+        "needs_server": False,
+        "shards": 12,
+        "trivial_outs": {"", "i0", "i1 i0"},
+        "rule": "cases = the F-19a witness + a 1205-member set (cap 1000, examined bound) + in-process histories on StorageEngine (key spaces of 3-30 keys of all five value types; SCAN with COUNT from {0,1,2,3,4,5,7,10,20,100,1000,1001}, 17 MATCH patterns, 9 TYPE filters, cursors followed from the implementation's reply and odd cursors {len-1,len,len+1,2^63,2^64-1}; additions, deletions and (x- cases) expiries of keys between the calls of an iteration; HSCAN/SSCAN/ZSCAN over collections below and above COUNT, NOVALUES, wrong-type / missing / expired keys, member additions/removals between calls) + command-level histories over TCP (option parsing incl. missing values, bad counts, lower case, non-bulk arguments; cursor parsing; HSCAN/SSCAN/ZSCAN on missing and wrong-type keys), each TCP history ending with SCAN 0 COUNT 1000, KEYS *, DBSIZE; one evaluation = one engine call or one command compared with the extracted Gallina model; unordered fast-path replies sorted",
+        "explanation": "theorems: static completeness (a full iteration over an unchanged key space returns exactly the matching live keys, each once), termination measure, soundness, completeness under modifications that sort at or after the position reached, refutation of the unrestricted claim (c19_concurrent_refuted, F-19a); tie: differential run of engine.rs scan/hscan/sscan/zscan and commands/scan.rs against the extracted model; property oracle: every key present throughout a complete iteration is returned (class scan-shift when a key below the position reached was added or deleted), nothing foreign is returned",
+        "trusted_base": ["oracle: Rust std f64 Display for ZSCAN scores that are not integers below 2^53 (text taken from the implementation)", "MATCH on keys that are not valid UTF-8 goes through from_utf8_lossy in the implementation; the model matches bytes (generator: ASCII plus isolated invalid bytes)"],
+        "assumptions": ["x- cases: real sleeps make short TTLs pass; a key that was given a short TTL is not written again in that case (sweeper timing)"],
+    },
 }
+
+
+def gen_tables():
+    import subprocess, os, sys
+    here = os.path.dirname(os.path.abspath(__file__))
+    p = subprocess.run([sys.executable, os.path.join(here, "gen_tables.py")], stdout=subprocess.PIPE, stderr=subprocess.STDOUT, text=True)
+    return p.returncode == 0, p.stdout[-500:]
